@@ -137,8 +137,11 @@ class SpecMixin:
         return isinstance(x, SObj) and isinstance(x.cls, type) and issubclass(x.cls, cls)
 
     def sp_cat(self, e, fr):
-        a = ops.as_payload(self.ctx, self.ev(e.args[0], fr))
-        b = ops.as_payload(self.ctx, self.ev(e.args[1], fr))
+        a0, b0 = self.ev(e.args[0], fr), self.ev(e.args[1], fr)
+        if isinstance(a0, (bytes, bytearray)) and isinstance(b0, (bytes, bytearray)):
+            return bytes(a0) + bytes(b0)
+        a = ops.as_payload(self.ctx, a0)
+        b = ops.as_payload(self.ctx, b0)
         return ops.payload_cat(self.ctx, a, b)
 
     def sp_blen(self, e, fr):
